@@ -53,11 +53,12 @@ def regen():
     """Regenerate lean/Cbor/Gen/*.lean from REPO's working tree.
     returns dict(ok, error, hashes, changed)"""
     import c2lean, cast
-    out = {'ok': True, 'error': None, 'hashes': {}, 'changed': []}
+    out = {'ok': True, 'error': None, 'hashes': {}, 'changed': [], 'untranslated': []}
     cfg = os.path.join(BUILD, 'cfg-ast')
     with Lock():
         try:
             files, rep = c2lean.generate(REPO, GEN, cfg)
+            out['untranslated'] = list(rep.get('failed', []))   # accessors replaced by `Untranslated` stubs
             try:
                 import effects
                 files['Effects.lean'] = effects.generate(REPO, cfg)
